@@ -15,7 +15,7 @@ LEVEL = "other"
 EXPLANATION = (
     "Deductive: every listener method under contract has a 'raises nothing' obligation for all states and all token texts "
     "of its rule (this is what found the strptime ValueErrors and the bullet-scan IndexError, repaired by fix commits), and "
-    "the refusal logic of create_database / reindex_database is verified over abstract pages. "
+    "the refusal logic of create_database / reindex_database (refuse a new broken page, accept a whitelisted one) is NOT under contract: it is covered by the bounded refusal histories below. "
     "Level 2 (deductive, all parse trees): the walk of the listener over every derivation of ZorgFileParser.atn is verified over a predicate abstraction of the compiler state (engine/l2.py): each listener method is replaced by its Level-1 contract (one symbolic summary per method, abstract transformers by all-SAT), reachability over the ATN with rule summaries is the inductive invariant, and the walk obligations hold on it: the scope flags encode the syntactic region at every word (G1), a section's stores are empty when it is entered and reset when it is left (G3), parent sections are open (G6), the todo registers hold their defaults at every item (G5), note registers are reset and a block is open at every note, everything is closed at the end, and every precondition of a listener method holds at every call of the walk. "
     "(for C08: no listener method is ever called outside its precondition on a conforming tree, so 'raises nothing' composes). "
     "Bounded (stated bound): totality and flag honesty on *invalid* text, where trees come from ANTLR's error recovery and are "
